@@ -1,6 +1,7 @@
 package harness
 
 import (
+	"bytes"
 	"fmt"
 	"io"
 	"regexp"
@@ -21,6 +22,8 @@ func init() {
 	props["C10"] = runC10
 	execs["readfile"] = execReadFile
 }
+
+var c10Readers = []string{"plain", "named", "plain", "named", "fat", "limited", "limited-tight", "bufio", "bytereader", "bytesreader", "bytesbuffer", "stringsreader"}
 
 const freshDef = "struct Zq9Vx { int32 a; }\n"
 
@@ -351,7 +354,7 @@ func runC10(c *Ctx) *Replay {
 		c.Sample(map[string]interface{}{"origin": origin, "input": clipStr(string(input), 300)})
 	}
 	// 1. fault-free parse under a drawn schedule, with the completeness probe
-	sc := Scenario{Kind: "readfile", Input: input, Sched: drawSchedule(r, len(input), nil), Reader: []string{"plain", "named"}[r.Intn(2)], Extra: map[string]string{"complete": "1"}}
+	sc := Scenario{Kind: "readfile", Input: input, Sched: drawSchedule(r, len(input), nil), Reader: c10Readers[r.Intn(len(c10Readers))], Extra: map[string]string{"complete": "1"}}
 	if len(input) > 1<<15 {
 		// large inputs are read in large pieces (a million one-byte reads cost minutes)
 		sc.Sched = &simnet.Schedule{Name: "fixed", Repeat: []int{0, 4096, 65536, 1000}[r.Intn(4)]}
@@ -391,7 +394,7 @@ func runC10(c *Ctx) *Replay {
 	menu := append([]string{"unexpected-eof", "closed-pipe", "reset", "custom"}, simnet.TemporaryNames...)
 	for _, k := range offs {
 		for variant := 0; variant < 3; variant++ {
-			fs := Scenario{Kind: "readfile", Input: input, Reader: "plain", Sched: &simnet.Schedule{Name: "all"},
+			fs := Scenario{Kind: "readfile", Input: input, Reader: []string{"plain", "plain", "named", "fat", "limited", "bufio", "bytereader"}[(k+variant)%7], Sched: &simnet.Schedule{Name: "all"},
 				RFault: &simnet.ReadFault{At: k, Err: menu[r.Intn(len(menu))]}}
 			fk := "read-bare"
 			switch variant {
@@ -519,8 +522,24 @@ func parse(input []byte, sched *simnet.Schedule, rf *simnet.ReadFault, reader st
 	}
 	out.Link = simnet.NewLink(input, s, rf)
 	var rd io.Reader = struct{ io.Reader }{out.Link}
-	if reader == "named" {
+	switch reader {
+	case "named":
 		rd = namedReader{out.Link}
+	case "fat", "limited", "limited-tight", "bufio", "bytereader":
+		// readers with optional capabilities or of concrete standard types over the link
+		rd = wrapReader(reader, out.Link).r
+	case "bytesreader", "bytesbuffer", "stringsreader":
+		// concrete readers that know their length (they cannot fail: fault-free parses only)
+		if rf == nil {
+			switch reader {
+			case "bytesreader":
+				rd = bytes.NewReader(input)
+			case "bytesbuffer":
+				rd = bytes.NewBuffer(append([]byte(nil), input...))
+			default:
+				rd = strings.NewReader(string(input))
+			}
+		}
 	}
 	simrt.SetMapOrder(simrt.OrderCanonical, 0)
 	out.Call = safeCall(64<<20, int64(200000+200*len(input)), func() {
@@ -563,9 +582,15 @@ func execReadFile(n *Node, sc *Scenario) *Violation {
 	} else {
 		sc.Extra["outcome"] = "ok"
 	}
-	if sc.RFault == nil && sc.Sched != nil && (len(sc.Sched.Chunks) > 0 || sc.Sched.Repeat > 0) {
+	if sc.RFault == nil && sc.Sched != nil && (len(sc.Sched.Chunks) > 0 || sc.Sched.Repeat > 0 || (sc.Reader != "plain" && sc.Reader != "named" && sc.Reader != "")) {
 		// the same bytes delivered in one piece must give the same answer
-		whole := parse(sc.Input, nil, nil, sc.Reader)
+		// (and through the plainest reader: what a reader can do besides Read must not matter;
+		// a reader with a Name() legitimately names the File)
+		wk := "plain"
+		if sc.Reader == "named" {
+			wk = "named"
+		}
+		whole := parse(sc.Input, nil, nil, wk)
 		if !whole.Call.Panicked {
 			e1, e2 := "", ""
 			if po.Err != nil {
